@@ -192,7 +192,7 @@ def check_C03(ctx):
         recv.rule_zero_read(ctx, cfg, F)
         ctx.rule("ZERO-READ").floor("recvmsg_sites[%s]" % cfg, 1, cfg)
         recv.rule_closed_origin(ctx, cfg, F)
-        ctx.rule("CLOSED-ORIGIN").floor("closed_constructions[%s]" % cfg, 2, cfg)
+        ctx.rule("CLOSED-ORIGIN").floor("closed_constructions[%s]" % cfg, 1, cfg)
         model = fd.build_model(F)
         fd.rule_fd_drop(ctx, cfg, F, model)
         fd.rule_close_owned(ctx, cfg, F, model)
@@ -238,7 +238,7 @@ def check_C12(ctx):
         recv.rule_trunc_err(ctx, cfg, F)
         ctx.rule("TRUNC-ERR").floor("followup_reads[%s]" % cfg, 1, cfg)
         recv.rule_closed_origin(ctx, cfg, F)
-        ctx.rule("CLOSED-ORIGIN").floor("closed_constructions[%s]" % cfg, 2, cfg)
+        ctx.rule("CLOSED-ORIGIN").floor("closed_constructions[%s]" % cfg, 1, cfg)
         send.rule_frag_route(ctx, cfg, F)
         send.rule_peer_closed(ctx, cfg, F)
     ctx.assume("a dying sender closes both ends of its per-message socketpair (kernel), so the follow-up read returns 0")
@@ -254,7 +254,7 @@ def check_C09(ctx):
         send.rule_send_check(ctx, cfg, F)
         ctx.rule("SEND-CHECK").floor("transmission_calls[%s]" % cfg, 2, cfg)
         send.rules_send_flow(ctx, cfg, F, "C09")
-        ctx.rule("SEND-PROP").floor("fallible_calls[%s]" % cfg, 4, cfg)
+        ctx.rule("SEND-PROP").floor("fallible_calls[%s]" % cfg, 3, cfg)
         send.rule_peer_closed(ctx, cfg, F)
         ctx.rule("SEND-PEER-CLOSED").floor("followup_sites[%s]" % cfg, 1, cfg)
     for cfg, F in ctx.configs(["K1", "K3"]):
@@ -303,6 +303,8 @@ def check_C13(ctx):
         send.rule_fd_bound(ctx, cfg, F)
         ipcl.rule_frag_contig(ctx, cfg, F)
         recv.rule_trunc_err(ctx, cfg, F)
+        ipcl.rule_size_agree(ctx, cfg, F)
+        ipcl.rule_reasm_contig(ctx, cfg, F)
     ctx.assume("the receiver always offers full-size buffers, so smaller fragments fit (C01 not-decided clause)")
 
 
@@ -401,6 +403,7 @@ def check_C04(ctx):
         ctx.rule("RX-MOVE").floor("endpoint_pushes[%s]" % cfg, 2, cfg)
         ipcl.rule_rewrap(ctx, cfg, F)
         ctx.rule("REWRAP").floor("rewrap_fns[%s]" % cfg, 4, cfg)
+        tls.rule_tls_restore(ctx, cfg, F)
     for cfg, F in ctx.configs(["K1", "K2"]):
         send.rule_dedicated_last(ctx, cfg, F)
         ipcl.rule_split_order(ctx, cfg, F)
@@ -427,6 +430,8 @@ def check_C01(ctx):
         ctx.rule("REASM-CONTIG").floor("followup_reads[%s]" % cfg, 1, cfg)
         mem.rule_setlen_cap(ctx, cfg, F)
         recv.rule_trunc_err(ctx, cfg, F)
+        ipcl.rule_size_agree(ctx, cfg, F)
+        ctx.rule("SIZE-AGREE").floor("single_packet_sites[%s]" % cfg, 1, cfg)
     for cfg, F in ctx.configs(["K1", "K3"]):
         ipcl.rule_whole_buf(ctx, cfg, F)
         ctx.rule("WHOLE-BUF").floor("payload_sites[%s]" % cfg, 4, cfg)
@@ -505,7 +510,7 @@ def check_C20(ctx):
         asyn.rule_as_order(ctx, cfg, F)
         ctx.rule("AS-ORDER").floor("to_stream[%s]" % cfg, 1, cfg)
         asyn.rule_as_loop(ctx, cfg, F)
-        router.rule_batch_order(ctx, cfg, F, "AS-BATCH-ORDER")
+        router.rule_batch_order(ctx, cfg, F, "AS-BATCH-ORDER", only_prefix="asynch::")
         ctx.rule("AS-DRAIN").floor("routing_fns[%s]" % cfg, 1, cfg)
         ctx.rule("AS-DRAIN").floor("install_sites[%s]" % cfg, 1, cfg)
         ctx.rule("AS-FWD").floor("message_paths[%s]" % cfg, 1, cfg)
